@@ -642,6 +642,15 @@ def rule_malformed_ranges_are_refused(ctx, rule_id="O9.12"):
     constructor_table(ctx, rule_id, DECIMAL_RANGE, bound, mode="refusal")
 
 
+def rule_property_values_with_blanks(ctx):
+    """O9.13: "surrounding blanks" are a meaning-preserving rewrite: every valid value of every data format property is the
+    same value with blanks before or after it (C11's set_property table, which writes each valid value three ways)."""
+    from .c11 import rule_set_property
+
+    ctx.res.minimum("O9.13", 1)
+    rule_set_property(ctx, rule="O9.13")
+
+
 # ------------------------------------------------------------------------------------------------- O9.5
 def rule_located_errors(ctx):
     """Every raise of InterfaceError reachable from Cid.read has a location or is wrapped by the field-construction handler."""
@@ -750,4 +759,4 @@ def rule_overlapping_items(ctx):
     items_overlap_table(ctx, "O9.10")
 
 
-RULES = [rule_row_dispatch, rule_row_order, rule_field_names, rule_field_row, rule_check_row, rule_is_unique_rule, rule_distinct_count_rule, rule_distinct_count_names, rule_malformed_ranges_are_refused, rule_located_errors, rule_known_types, rule_overlapping_items, rule_module_state]
+RULES = [rule_row_dispatch, rule_row_order, rule_field_names, rule_field_row, rule_check_row, rule_is_unique_rule, rule_distinct_count_rule, rule_distinct_count_names, rule_malformed_ranges_are_refused, rule_property_values_with_blanks, rule_located_errors, rule_known_types, rule_overlapping_items, rule_module_state]
